@@ -471,7 +471,7 @@ func (g G) planC07() *Plan {
 	o := &mixOpts{family: "conformant-fault-free",
 		world: worldOpts{maxSPs: 3, maxUsers: 3, maxReplicas: 2, hardPct: 10, hardURLPct: 25, signReqVariety: true, parkVariety: true, noCertPct: 10, issuerVariety: true,
 			endpointVariety: true, customAttrs: true, sloVariety: true, acsSupportedVariety: true},
-		wSSO: 40, wSLO: 20, wAttrQ: 20, wCallback: 5, wMeta: 2, wResume: 25, wFinish: 12, wComplete: 4, wAdvance: 3,
+		wSSO: 40, wSLO: 20, wAttrQ: 20, wCallback: 5, wMeta: 2, wResume: 25, wFinish: 12, wComplete: 4, wAdvance: 3, wRotate: 2,
 		timePct: 20, hostVariety: true, minSteps: 3, maxSteps: 30, maxPre: 1, autoFinishPct: 40, callbackAfter: 30,
 		// some runs carry storage faults: a request hit by one is not judged, every other conformant request of the run still is —
 		// a fault met by one request must not make the IdP refuse the next (state poisoned by a failed lookup, a stuck limiter …)
